@@ -134,7 +134,7 @@ CHECKS = {
     text="Stateless model checking of the real code: harness bodies (group/tangent functions, manifold models incl. SubManifold and "
          "AnyManifold, Spline/BSpline evaluation, sparse derivatives, independent diff/minimize/fit calls) are compiled with TSan code "
          "generation and linked against our own runtime, so every memory access is a hook; 2-4 controlled threads under a serialising "
-         "scheduler; DFS over all schedules within a preemption bound (2 and 3 threads bound 2 quick; 2 threads bound 4, 3 threads bound 3, 4 threads bound 2 thorough) with scheduling points at every access to a "
+         "scheduler; DFS over all schedules within a preemption bound (quick: 2 threads bound 3, 3 and 4 threads bound 2; 2 threads bound 4, 3 threads bound 3, 4 threads bound 2 thorough) with scheduling points at every access to a "
          "conflict-candidate granule and at every static-initialisation guard operation, warm and first-use variants, one forked child per "
          "execution; oracles: results bitwise equal to the sequential run, no conflict pair unordered by happens-before, no deadlock. When no "
          "thread writes memory another thread touches the result holds for every interleaving. A separate free-running real-TSan pass "
